@@ -106,8 +106,10 @@ def run(ctx: common.Ctx):
     s5 = dict(ctx.coverage['worker_stats'])
     # binding node-collapsing parameters on indel-rich clusters: nothing may appear
     cv_checks.collapse_stream(ctx, ctx.n(240, 3000), 'gained')
-    for kind, n in (('fusion', ctx.n(90, 1500)), ('circ', ctx.n(90, 1500)), ('combo', ctx.n(70, 1200))):
-        bres = cv_checks.explore_backbone(ctx, kind, n, dict(exception=None))
+    for kind, n in (('fusion', ctx.n(110, 1800)), ('circ', ctx.n(90, 1500)), ('combo', ctx.n(70, 1200))):
+        # fusion: + a witness input of the open finding frameshifts-in-both-retained-stretches-of-fusion
+        bres = cv_checks.explore_backbone(ctx, kind, n, dict(exception=None),
+                                          extra_seeds=(151238392,) if kind == 'fusion' else ())
         for r in bres:
             if 'S' not in r:
                 continue
@@ -119,6 +121,18 @@ def run(ctx: common.Ctx):
             key = None
             if kind in ('circ', 'combo') and 'S_mixed' in r and not (extra - r['S_mixed']):
                 key = cv_checks.KF_CIRC
+            known = cv_checks.fusion_both_fs_extra(r, extra) if kind == 'fusion' else set()
+            if known:
+                ctx.add_violation(
+                    f'{len(known)} reported fusion peptide(s) whose entries name a frameshifting record of the LEFT '
+                    f'and of the RIGHT retained intronic stretch are not products of the backbone carrying one '
+                    f'compatible combination of the records, e.g. {sorted(known)[:3]} (headers '
+                    f'{[r["headers"][p] for p in sorted(known)[:2]]})',
+                    dict(r['desc'], kind='unrealizable-' + kind, extra=sorted(known)[:20]),
+                    finding_key=cv_checks.KF_FUSION_FS)
+                extra = extra - known
+                if not extra:
+                    continue
             ctx.add_violation(
                 f'{len(extra)} reported {kind} peptide(s) are not products of the backbone carrying one '
                 f'compatible combination of the records, e.g. {sorted(extra)[:3]} (headers '
